@@ -601,7 +601,7 @@ def stochastic_round_po2(x):
   val = tf.random.uniform(tf.shape(y), minval=minval, maxval=maxval)
   # use y as a threshold to keep the probabliy [2**left_val, y, 2**right_val]
   # so that the mean value of the sample should be y
-  x_po2 = tf.where(y < val, left_val, right_val)
+  x_po2 = tf.where(y <= val, left_val, right_val)
   """
   x_log2 = stochastic_round(tf.keras.backend.log(y + eps) / log2)
   sign = tf.sign(x)
